@@ -603,6 +603,11 @@ func (e *beaconEngine) setup() error {
 			if method != MSyncChain {
 				return -1, 0
 			}
+			// a fault like the others: none after the script's last fault has ended (the liveness
+			// bounds are about the healed phase)
+			if !e.start.IsZero() && time.Since(e.start) >= time.Duration(sc.HealAtMs)*time.Millisecond {
+				return -1, 0
+			}
 			if H64(sc.Seed, "stall", from, to, time.Now().UnixNano())%3 == 0 {
 				return sc.StallSync, 0
 			}
